@@ -11,9 +11,14 @@ RULE = ("one TLC state per lattice system (non-negative A, K none/scalar/vector,
         "exact (log-free) KKT certificate, and the exact excitation objective of the best of 3^n probe points; "
         "replayed into fit(model='poisson'|'excitation'|'gaussian'): bounds, in-gamut reproduction by all three "
         "models, certified Poisson optimum, and 'not worse than the best probe point' (necessary condition) for both "
-        "objectives.  non-trivial = out-of-gamut target or certified corner; distinct = (system, target, model)")
+        "objectives; plus optima that are not corners, constructed backwards with an exact KKT certificate (free "
+        "sources strictly inside their bounds, the others at the bound the gradient asks for): the Poisson prediction "
+        "must equal the certified capture, the excitation objective the certified minimax value.  non-trivial = "
+        "out-of-gamut target or certified optimum; distinct = (system, target, model)")
 
 TOL = 2e-2
+TOL_BACK_P = 5e-3     # certified non-corner Poisson optima: measured deviation of the default solver <= 1e-3
+TOL_BACK_E = 1e-3     # certified excitation optimum value delta (0.005..0.04): measured deviation <= 2e-4
 
 
 def exc_obj(b, q):
@@ -102,7 +107,55 @@ def replay_state(args):
                     bad.append(("C07.excitation-optimum", dict(model="excitation", cls=r["cls"], kind="worse-than-probe", **where0), float(tbest), float(mine), r))
         except Exception as ex:
             bad.append(("C07.no-error", dict(model="excitation", exc=type(ex).__name__, **where0), None, repr(ex)[:200], None))
+    nfit += replay_back(dreye, st, s, nexc, bad, where0)
     return bad, nfit
+
+
+def replay_back(dreye, st, s, nexc, bad, where0):
+    """certified optima that are not box corners (Models.tla, BackRecord): the Poisson prediction must be the certified
+    capture q, the excitation objective of the returned fit must equal the certified optimal value delta"""
+    recs = sorted(st.get("back", []), key=repr)
+    if not recs:
+        return 0
+    A, lb, ub, K, bl = dsys.floats(s)
+    S = s["D"] * s["DK"]
+    Kmat = np.asarray(s["Kn"], float) / s["DK"]
+    blv = np.asarray(s["bl"], float) / s["D"]
+    nfit = 0
+    for wkey in sorted({tuple(r["w"]) for r in recs}):
+        rs = [r for r in recs if tuple(r["w"]) == wkey]
+        B = np.array([[a / b for a, b in zip(r["pbn"], r["pbd"])] for r in rs])
+        w = dict(model="poisson", back=True, weights=list(wkey), **where0)
+        try:
+            est = dsys.make_estimator(dreye, s)
+            est.w = est.W = np.asarray(wkey, float)
+            X, Bp = est.fit(B.copy(), model="poisson")
+            nfit += len(rs)
+            for k, r in enumerate(rs):
+                q = np.asarray(r["q"], float) / S
+                pred = Kmat @ (A @ np.asarray(X, float)[k] + blv)
+                if np.max(np.abs(pred - q)) > TOL_BACK_P or np.max(np.abs(np.asarray(Bp, float)[k] - pred)) > 1e-9 * (1 + np.max(np.abs(pred))):
+                    bad.append(("C07.poisson-optimum", dict(nfree=len(r["F"]), **w), q.tolist(), pred.tolist(), r))
+        except Exception as ex:
+            bad.append(("C07.no-error", dict(exc=type(ex).__name__, **w), None, repr(ex)[:200], None))
+    rs = [r for r in recs if all(v == 1 for v in r["w"])]
+    rs = rs[:: max(1, len(rs) // max(1, nexc))][:nexc]
+    if rs:
+        B = np.array([[a / b for a, b in r["eb"]] for r in rs])
+        w = dict(model="excitation", back=True, **where0)
+        try:
+            est = dsys.make_estimator(dreye, s)
+            X, Bp = est.fit(B.copy(), model="excitation")
+            nfit += len(rs)
+            for k, r in enumerate(rs):
+                delta = r["delta"][0] / r["delta"][1]
+                pred = Kmat @ (A @ np.asarray(X, float)[k] + blv)
+                mine = exc_obj(B[k], pred)
+                if abs(mine - delta) > TOL_BACK_E:
+                    bad.append(("C07.excitation-optimum", dict(nfree=len(r["F"]), kind="better-than-optimum" if mine < delta else "worse-than-optimum", **w), delta, float(mine), r))
+        except Exception as ex:
+            bad.append(("C07.no-error", dict(exc=type(ex).__name__, **w), None, repr(ex)[:200], None))
+    return nfit
 
 
 def _group(jobs):
@@ -132,17 +185,28 @@ def run(ctx):
             ctx.count("targets:%s%s" % (r["cls"], ":certified-corner" if r["pcorner"] else ""))
             if r["cls"] != "interior" or r["pcorner"]:
                 ctx.nontrivial.add((repr(st["sys"]), tuple(r["b"])))
+        for r in st.get("back", []):
+            ctx.count("certified non-corner optima: %d free source(s)" % len(r["F"]))
+            ctx.nontrivial.add((repr(st["sys"]), "back", repr(r["x"]), r["t"], r["m"], tuple(r["w"])))
     ctx.traces += len(sts)
     for st in sts[:2]:
         ctx.sample(dict(sys=st["sys"], rec=st["recs"][0] if st["recs"] else None))
-    ctx.assumptions += ["out-of-gamut optima that are not certified box corners are checked only through the necessary condition 'not worse than the best of 3^n probe points' (DESIGN: C07 not decided)",
+    ctx.assumptions += ["out-of-gamut grid targets whose optimum is not a certified box corner are checked only through the necessary condition 'not worse than the best of 3^n probe points' (DESIGN: C07 not decided)",
                         "the value of the Poisson likelihood is computed by the harness in floating point (TLC has no logarithm)"]
     return ctx.finish(rule=RULE, exhaustive=True)
 
 
 def replay(ctx, rep):
     c = rep["case"]
-    st = dict(fam=c.get("fam", "?"), sys=c["sys"], recs=[c["rec"]] if c.get("rec") else [])
+    rec = c.get("rec")
+    if rec and "pbn" in rec:
+        st = dict(fam=c.get("fam", "?"), sys=c["sys"], recs=[], back=[rec])
+        bad = []
+        replay_back(import_dreye(), st, c["sys"], 1, bad, dict(fam=st["fam"]))
+        for b in bad:
+            print("still failing:", b[0], b[1], b[3])
+        return 1 if bad else 0
+    st = dict(fam=c.get("fam", "?"), sys=c["sys"], recs=[rec] if rec else [])
     if not st["recs"]:
         return 1
     bad, _ = replay_state((st, 1))
